@@ -438,9 +438,9 @@ def eval_init(rp):
     return None, None, coq
 
 
-def case_deflation(rng):
+def case_deflation(rng, K=None):
     from pb_bss.initializer.deflation import deflationSeed
-    F, Tn, D, K = 257, 14, 3, int(rng.integers(2, 4))
+    F, Tn, D, K = 257, 14, 3, (K or int(rng.integers(2, 4)))
     Y = mm.crandn(rng, (F, Tn, D))
     rp = {'fn': 'deflation', 'Y': Y, 'K': K}
     fail, key = eval_deflation(rp)
@@ -482,8 +482,8 @@ def cases(rng, tier):
                               force_mode=['zero', 'repeat', 'fewframes', 'rank1'][(i // 7) % 4], force_single=True))
     for i in range(20 if q else 150):
         out.append(case_init(rng, tier, i))
-    for i in range(1 if q else 4):
-        out.append(case_deflation(rng))
+    for i in range(3 if q else 9):
+        out.append(case_deflation(rng, K=[2, 3, 4][i % 3]))
     return out
 
 
